@@ -86,6 +86,11 @@ func c11history(groups [][]string, early bool) (string, []string, []string, erro
 			return "", nil, nil, err
 		}
 	}
+	reqSet := map[string]bool{}
+	for _, r := range b.FindPackages() {
+		reqSet[r] = true
+	}
+	c11lastDigest = commentDigest(u, reqSet)
 	return dumpUniverse(u), b.FindPackages(), problems, nil
 }
 
@@ -112,7 +117,7 @@ func c11(g *Gen) {
 		for _, gp := range prog {
 			d := filepath.Join(src, gp.Path)
 			os.MkdirAll(d, 0755)
-			os.WriteFile(filepath.Join(d, "file.go"), []byte(gp.Src), 0644)
+			os.WriteFile(filepath.Join(d, "file.go"), []byte(pgWithComments(gp.Src)), 0644)
 		}
 		req := map[string]bool{}
 		for _, gp := range prog {
@@ -154,6 +159,7 @@ func c11(g *Gen) {
 			}
 		}
 		first := ""
+		firstDigest := ""
 		var problems []string
 		for h := 0; h < nh; h++ {
 			order := append([]string{}, reqL...)
@@ -179,6 +185,14 @@ func c11(g *Gen) {
 			problems = append(problems, probs...)
 			if !reflect.DeepEqual(inputs, reqL) {
 				problems = append(problems, fmt.Sprintf("FindPackages %v, requested %v", inputs, reqL))
+			}
+			if h == 0 {
+				firstDigest = c11lastDigest
+				if !strings.Contains(firstDigest, "doc ") {
+					problems = append(problems, "no comment at all was delivered for the requested packages")
+				}
+			} else if c11lastDigest != firstDigest {
+				problems = append(problems, fmt.Sprintf("history %v (early universe %v) delivers other comments for the requested packages than the first history", groups, early))
 			}
 			if h == 0 {
 				first = dump
